@@ -316,7 +316,7 @@ func (ex *Exec) next(fr *frame, st *State, x *ssa.Next) []*State {
 	alts := decodeRuneAlts(s.B[pos:])
 	var feas []runeAlt
 	for _, a := range alts {
-		if ex.feasible(term.And(st.G, a.cond), false) {
+		if ex.feasibleWith(st.G, a.cond, false) {
 			feas = append(feas, a)
 		}
 	}
@@ -362,7 +362,7 @@ func (ex *Exec) stringToRunes(fr *frame, st *State, x *ssa.Convert, s StringV) [
 		alts := decodeRuneAlts(s.B[p.pos:])
 		var feas []runeAlt
 		for _, a := range alts {
-			if ex.feasible(term.And(p.st.G, a.cond), false) {
+			if ex.feasibleWith(p.st.G, a.cond, false) {
 				feas = append(feas, a)
 			}
 		}
